@@ -143,6 +143,7 @@ struct State {
     site_counts: HashMap<String, u32>,
     site_hits: Vec<(String, u32)>,
     faults_fired: Vec<FaultSpec>,
+    fault_tids: Vec<usize>,
     crash_fired: bool,
     rand_script: Vec<u64>,
     rand_pos: usize,
@@ -218,6 +219,7 @@ impl Kernel {
                 site_counts: HashMap::new(),
                 site_hits: vec![],
                 faults_fired: vec![],
+                fault_tids: vec![],
                 crash_fired: false,
                 rand_script: cfg.rand_script,
                 rand_pos: 0,
@@ -305,8 +307,14 @@ impl Kernel {
         *st.counters.entry(name).or_insert(0) += n;
     }
 
+    pub fn last_fault_site(&self) -> Option<String> {
+        self.lock().faults_fired.last().map(|f| f.site.clone())
+    }
+
+    /// Number of injected faults that fired on the calling thread so far.
     pub fn faults_fired_count(&self) -> usize {
-        self.lock().faults_fired.len()
+        let me = my_tid().unwrap_or(usize::MAX);
+        self.lock().fault_tids.iter().filter(|t| **t == me).count()
     }
 
     pub fn abort_reason(&self) -> Option<Abort> {
@@ -701,6 +709,7 @@ impl Kernel {
             .unwrap_or(false);
         if let Some(f) = &fault {
             st.faults_fired.push(f.clone());
+            st.fault_tids.push(my_tid().unwrap_or(usize::MAX));
             Self::note_locked(&mut st, "fault", &format!("{}#{} errno={}", site, n, f.errno));
         }
         if crash {
